@@ -34,6 +34,13 @@ def _kind(value):
     return type(value)
 
 
+def fold_case(text):
+    """ Lower case, letter by letter.  str.lower() makes two characters of a dotted capital I and
+    spells a capital sigma by its place in the word: a ? of a pattern then stood for half a letter,
+    and a pattern did not match the item it was copied from. """
+    return ''.join(c.lower() if len(c.lower()) == 1 else c for c in text)
+
+
 @dispatcher.register_for('MATCH')
 def MATCH(lookup_value, lookup_array, match_type=1):
     if not lookup_value and not lookup_array:
@@ -72,7 +79,7 @@ def MATCH(lookup_value, lookup_array, match_type=1):
         elif match_type == 0:
             if isinstance(lookup_value, string_types):
                 # only * and ? are wildcards: take '[' literally
-                if fnmatch.fnmatch(lookup_array[idx].lower(), lookup_value.lower().replace('[', '[[]')):
+                if fnmatch.fnmatchcase(fold_case(lookup_array[idx]), fold_case(lookup_value).replace('[', '[[]')):
                     return idx + 1
             else:
                 if lookup_array[idx] == lookup_value:
